@@ -828,6 +828,10 @@ class _FakeFigure:
 
     def savefig(self, fname, **kwargs):
         self.sink.append((fname, self.payload))
+        if _os.path.isdir(_os.path.dirname(str(fname)) or "."):
+            # a frames directory that really exists: the frame is a real file there (its content: the bars it shows)
+            with open(fname, "w", encoding="utf-8") as fh:
+                fh.write(str(self.payload))
 
 
 class _FakeOs:
@@ -942,27 +946,36 @@ class ImplViz(ImplGen):
         tmp = _tempfile.mkdtemp(prefix="verif_frames_")
         creator = GanttChartCreator(d2, gif_config={"frames_dir": tmp, "remove_frames": False,
                                                     "gif_path": _os.path.join(tmp, "x.gif")})
-        for j, p, m in hist[:max(1, len(hist) // 2)]:
-            d2.dispatch(self.instance.jobs[j][p], m)
-        d2.reset()
-        for j, p, m in hist:
-            d2.dispatch(self.instance.jobs[j][p], m)
-        sink.clear()
-        seen.clear()
         creator.partial_gantt_chart_plotter = plot_function
         old_gif = _vid.create_gif_from_frames
         _vid.create_gif_from_frames = lambda *a, **k: None
         _vid.plt.close = lambda *a, **k: None
+        import shutil as _shutil
         try:
+            # the abandoned episode: other operations first where the history allows it (its GIF is made too, into the same
+            # frames directory, which is kept)
+            first = [x for x in reversed(hist) if x[1] == 0][:max(1, len(hist) // 2)]
+            for j, p, m in first:
+                d2.dispatch(self.instance.jobs[j][p], m)
             creator.create_gif()
+            d2.reset()
+            for j, p, m in hist:
+                d2.dispatch(self.instance.jobs[j][p], m)
+            sink.clear()
+            seen.clear()
+            creator.create_gif()
+            # what the GIF is assembled from: the real directory, listed in a hostile order, loaded by the real loader
+            names = [n for n in _os.listdir(tmp) if n.startswith("frame_")]
+            order = load_order(list(reversed(sorted(names))))
+            shown = []
+            for n in order:
+                with open(_os.path.join(tmp, n), encoding="utf-8") as fh:
+                    shown.append(fh.read())
         finally:
             _vid.plt.close = old_close
             _vid.create_gif_from_frames = old_gif
-            import shutil as _shutil
             _shutil.rmtree(tmp, ignore_errors=True)
-        by_name = {_os.path.basename(f): payload for f, payload in sink}
-        order = load_order(list(reversed(list(by_name))))
-        facade = f"xlim {seen.get('xlim', 0)} " + " / ".join(by_name[n] for n in order)
+        facade = f"xlim {seen.get('xlim', 0)} " + " / ".join(shown)
         return direct if facade == direct else facade
 
 
